@@ -460,7 +460,7 @@ Inductive pexp :=
 | PAttrEq (a : name) (v : bytes)            (* @a='v'     *)
 | PSelfEq (v : bytes)                       (* .='v'      *)
 | PTextEq (v : bytes)                       (* text()='v' *)
-| PDescEq (nt : nametest) (v : bytes)       (* .//x='v'   *)
+| PDescEq (nt : nametest) (v : bytes)       (* .//x='v': the engine includes the node itself *)
 | PHasChild (nt : nametest)                 (* x          *)
 | PHasAttr (a : name)                       (* @a         *)
 | PChildPred (nt : nametest) (p : pexp)     (* x[p]       *)
@@ -471,18 +471,26 @@ Record target := mkTarget { t_steps : list (axis * nametest); t_filters : list p
 Definition nt_match (nt : nametest) (n : name) : bool :=
   match nt with NTAny => true | NTName p l => name_eqb (p, l) n end.
 
-Fixpoint pm_steps (steps : list (axis * nametest)) (chain : list name) {struct steps} : bool :=
+(* The engine's reading of the path part (antchfx/xpath v1.1.11, observed): a child step consumes
+   one element of the chain; "//nt" selects, from the node the previous step stopped at, that
+   node itself or any descendant element whose name passes nt (the engine folds
+   descendant-or-self::node()/child::nt into descendant-or-self::nt). *)
+Fixpoint pm_steps_from (steps : list (axis * nametest)) (prev : option name) (chain : list name)
+  {struct steps} : bool :=
   match steps with
   | [] => match chain with [] => true | _ => false end
   | (Child, nt) :: r =>
-      match chain with [] => false | c :: cs => nt_match nt c && pm_steps r cs end
+      match chain with [] => false | c :: cs => nt_match nt c && pm_steps_from r (Some c) cs end
   | (Desc, nt) :: r =>
-      (fix skip (ch : list name) : bool :=
-         match ch with
-         | [] => false
-         | c :: cs => (nt_match nt c && pm_steps r cs) || skip cs
-         end) chain
+      (match prev with Some p => nt_match nt p && pm_steps_from r prev chain | None => false end)
+      || (fix skip (ch : list name) : bool :=
+            match ch with
+            | [] => false
+            | c :: cs => (nt_match nt c && pm_steps_from r (Some c) cs) || skip cs
+            end) chain
   end.
+Definition pm_steps (steps : list (axis * nametest)) (chain : list name) : bool :=
+  pm_steps_from steps None chain.
 
 Definition is_attr_node (t : tree) : bool :=
   match t_type t with AttributeNode => true | _ => false end.
@@ -503,7 +511,7 @@ Fixpoint pred_of (p : pexp) (t : tree) {struct p} : bool :=
   | PAttrEq a v => existsb (fun k => is_attr_node k && name_eqb a (node_name k) && bytes_eqb (inner_text k) v) (t_kids t)
   | PSelfEq v => bytes_eqb (inner_text t) v
   | PTextEq v => existsb (fun k => is_text_node k && bytes_eqb (t_data k) v) (t_kids t)
-  | PDescEq nt v => existsb (fun k => nt_match nt (node_name k) && bytes_eqb (inner_text k) v) (desc_elems t)
+  | PDescEq nt v => existsb (fun k => nt_match nt (node_name k) && bytes_eqb (inner_text k) v) (t :: desc_elems t)
   | PHasChild nt => existsb (fun k => is_element k && nt_match nt (node_name k)) (t_kids t)
   | PHasAttr a => existsb (fun k => is_attr_node k && name_eqb a (node_name k)) (t_kids t)
   | PChildPred nt q => existsb (fun k => is_element k && nt_match nt (node_name k) && pred_of q k) (t_kids t)
